@@ -428,12 +428,15 @@ CAPTURE_PROGRAMS = {
     "__import__": "__import__ = 5\nfrom os import sep\nr = sep\n",
     "classmethod": "classmethod = 5\nclass B:\n    def __init_subclass__(cls):\n        cls.t = 1\nclass C(B):\n    pass\nr = C.t\n",
     "locals": "locals = 5\nfrom os import sep\nr = sep\n",
+    "PendingClassDef.get_result/__import__": "__import__ = 5\nclass A:\n    y = 1\nr = A.y\n",
+    # the class statement reads the GLOBAL __name__ for __module__; the idiom reads it through the enclosing scopes
+    "PendingClassDef.get_result/__name__": "def f():\n    __name__ = 'local'\n    class A:\n        pass\n    return A.__module__\nr = (f() == 'local')\n",
 }
 
 
 def replay_capture(rp):
     from suites import replay_util as RU
-    src = CAPTURE_PROGRAMS.get(rp["name"])
+    src = CAPTURE_PROGRAMS.get(f"{rp.get('fn', '').split('.', 1)[-1] if rp.get('fn', '').startswith('pending_nodes.') else rp.get('fn', '')}/{rp['name']}") or CAPTURE_PROGRAMS.get(rp["name"])
     if src is None:
         return dict(reproduced=False, note=f"no stored program for {rp['name']!r}")
     return RU.replay_source(src, "same-globals", names=["r"])
